@@ -1136,6 +1136,7 @@ func runC15(res *hx.Result, rng *hx.Rng, tier string, outdir string) {
 	// ---- concurrent histories (child process) ----
 	runHistories(res, cf, rng, outdir, nHist, unsync)
 	runDirect(res, cf, rng, outdir, tier, unsync)
+	runSubs(res, cf, rng, outdir, tier)
 	cf.Flush()
 	if tier == "thorough" {
 		raceDetectorRun(res, outdir, repo, unsync)
